@@ -490,39 +490,132 @@ func checkROMHeader(ctx *Ctx, total, titleOff int) {
 			}
 		}
 		okAll := len(copies) > 0
-		seenLow, seenHigh := false, false
-		for _, cp := range copies {
-			dst, _ := cp.Args[0].(*absint.Slice)
-			src, _ := cp.Args[1].(*absint.Slice)
-			if dst == nil || src == nil {
-				okAll = false
-				continue
+		// the version test, wherever it sits (a branch around the copies, or offsets
+		// chosen beforehand): its key and which outcome means version <= 1
+		type vcond struct {
+			key string
+			low bool // outcome `true` means version <= 1
+		}
+		var vconds []vcond
+		noteCond := func(key string) {
+			if !strings.Contains(key, "version") {
+				return
 			}
-			// which version case is this copy in?
-			low, known := false, false
-			for k, v := range cp.Guards {
-				if strings.Contains(k, "version") {
-					known = true
-					low = v == strings.Contains(k, "<=1") || (strings.Contains(k, ">1") && !v)
+			for _, v := range vconds {
+				if v.key == key {
+					return
 				}
+			}
+			b := ip.In.Conds[key]
+			if b == nil || b.Cmp == nil {
+				return
+			}
+			x, _ := b.Cmp.X.(*absint.Int)
+			y, _ := b.Cmp.Y.(*absint.Int)
+			if x == nil || y == nil {
+				return
+			}
+			at := func(ver uint64) (bool, bool) {
+				var l, r uint64
+				if c, ok := y.IsConst(); ok && strings.Contains(x.Lin.Key(), "version") {
+					l, r = ver, c
+				} else if c, ok := x.IsConst(); ok && strings.Contains(y.Lin.Key(), "version") {
+					l, r = c, ver
+				} else {
+					return false, false
+				}
+				switch b.Cmp.Op {
+				case "<":
+					return l < r, true
+				case "<=":
+					return l <= r, true
+				case ">":
+					return l > r, true
+				case ">=":
+					return l >= r, true
+				case "==":
+					return l == r, true
+				case "!=":
+					return l != r, true
+				}
+				return false, false
+			}
+			v1, ok1 := at(1)
+			v2, ok2 := at(2)
+			if ok1 && ok2 && v1 != v2 {
+				vconds = append(vconds, vcond{key, v1})
+			}
+		}
+		for _, cp := range copies {
+			for k := range cp.Guards {
+				noteCond(k)
+			}
+			for _, g := range cp.PathL {
+				if g.Cmp != nil {
+					ip.In.NoteCond(g.Key, &absint.Bool{K: absint.TriTop, Cmp: g.Cmp})
+				}
+				noteCond(g.Key)
+			}
+			for _, a := range cp.Args[:2] {
+				if sl, ok := a.(*absint.Slice); ok {
+					conds := map[string]bool{}
+					absint.IteConds(sl.Off.Lin, conds)
+					absint.IteConds(sl.Len.Lin, conds)
+					for k := range conds {
+						noteCond(k)
+					}
+				}
+			}
+		}
+		seenLow, seenHigh := len(vconds) > 0, len(vconds) > 0
+		if len(vconds) == 0 {
+			okAll = false
+			R.Fail("rom", "WriteHeader:cases", pos, "no test of the header version governs the copy")
+		}
+		for _, low := range []bool{true, false} {
+			if len(vconds) == 0 {
+				break
+			}
+			assume := map[string]bool{}
+			for _, v := range vconds {
+				assume[v.key] = v.low == low
 			}
 			skip := 0
 			if low {
 				skip = titleOff
-				seenLow = true
-			} else {
-				seenHigh = true
 			}
-			wantDstOff := fmt.Sprintf("%x", hdrConst+uint64(skip))
-			if !known || !strings.Contains(absint.ValKey(&dst.Base), "r.Contents") || dst.Off.Lin.Key() != wantDstOff || dst.Len.Lin.Key() != fmt.Sprintf("%x", total-skip) || src.Off.Lin.Key() != fmt.Sprintf("%x", skip) {
+			n := 0
+			for _, cp := range copies {
+				compatible := true
+				for k, v := range cp.Guards {
+					if av, ok := assume[k]; ok && av != v {
+						compatible = false
+					}
+				}
+				if !compatible {
+					continue
+				}
+				n++
+				dst, _ := cp.Args[0].(*absint.Slice)
+				src, _ := cp.Args[1].(*absint.Slice)
+				if dst == nil || src == nil {
+					okAll = false
+					continue
+				}
+				dOff := absint.Restrict(dst.Off.Lin, assume).Key()
+				dLen := absint.Restrict(dst.Len.Lin, assume).Key()
+				sOff := absint.Restrict(src.Off.Lin, assume).Key()
+				if !strings.Contains(absint.ValKey(&dst.Base), "r.Contents") || dOff != fmt.Sprintf("%x", hdrConst+uint64(skip)) || dLen != fmt.Sprintf("%x", total-skip) || sOff != fmt.Sprintf("%x", skip) {
+					okAll = false
+					R.Fail("rom", fmt.Sprintf("WriteHeader:copy:version<=1=%v", low), pos, fmt.Sprintf("copies Contents[%s : +%s] <- bytes[%s:]; want Contents[HeaderOffset+%d : HeaderOffset+%d] <- bytes[%d:]", dOff, dLen, sOff, skip, total, skip))
+				}
+			}
+			if n != 1 {
 				okAll = false
-				R.Fail("rom", fmt.Sprintf("WriteHeader:copy:version<=1=%v", low), pos, fmt.Sprintf("copies %s <- %s (guards %v); want Contents[HeaderOffset+%d : HeaderOffset+%d] <- bytes[%d:]", absint.ValKey(dst), absint.ValKey(src), cp.Guards, skip, total, skip))
+				R.Fail("rom", fmt.Sprintf("WriteHeader:cases:version<=1=%v", low), pos, fmt.Sprintf("%d copies in this case, want exactly one", n))
 			}
 		}
-		if !seenLow || !seenHigh {
-			okAll = false
-			R.Fail("rom", "WriteHeader:cases", pos, "expected one copy for version<=1 and one for version>=2")
-		}
+		_, _ = seenLow, seenHigh
 		if okAll {
 			R.Pass("rom", "WriteHeader", pos, fmt.Sprintf("version<=1: bytes [%d,%d) only; otherwise [0,%d); same offsets on both sides", titleOff, total, total))
 		}
